@@ -74,7 +74,6 @@ theorem model_meets_stdlib_contract : StdlibContract modelStdlib where
       rw [readRuneB_cons b b0 t hb, ← hb]
       rfl
   unread := fun _ => rfl
-  byte_empty := fun b h => by simp [modelStdlib, readByteB, h]
   byte_cons := fun b x t h => by simp [modelStdlib, readByteB, h]
   buffered_len := fun _ => rfl
 
@@ -107,10 +106,11 @@ theorem stdlib_contract_determines_fullRune (F : StdlibFns) (h : StdlibContract 
   cases hf : F.fullRune bs <;> cases hg : fullRune bs <;> simp_all
 
 /-- **The contract determines bufio** as the reading side uses it: the fill loop of `ReadRune` on every
-    buffer and every sequence of reads still to come, and `ReadRune` / `UnreadRune` / `ReadByte` /
-    `Buffered` in every reader state, are the model's. -/
+    buffer and every sequence of reads still to come, and `ReadRune` / `UnreadRune` / `Buffered` in every
+    reader state, `ReadByte` in every state with something buffered, are the model's. -/
 theorem stdlib_contract_determines_bufio (F : StdlibFns) (h : StdlibContract F) :
-    F.fill = fillLoop ∧ F.readRune = readRuneB ∧ F.unreadRune = unreadRuneB ∧ F.readByte = readByteB ∧
+    F.fill = fillLoop ∧ F.readRune = readRuneB ∧ F.unreadRune = unreadRuneB ∧
+    (∀ b : BR, b.rd.buf ≠ [] → F.readByte b = readByteB b) ∧
     ∀ b : BR, F.buffered b = b.rd.buf.length := by
   have hm := model_meets_stdlib_contract
   have hfull := stdlib_contract_determines_fullRune F h
@@ -146,10 +146,24 @@ theorem stdlib_contract_determines_bufio (F : StdlibFns) (h : StdlibContract F) 
       rw [show readRuneB b = modelStdlib.readRune b from rfl, hm.read_rune b hb', hfill, hdec]
       rfl
   · funext b; rw [h.unread b]; rfl
-  · funext b
+  · intro b hne
     cases hb : b.rd.buf with
-    | nil => rw [h.byte_empty b hb]; simp [readByteB, hb]
+    | nil => exact absurd hb hne
     | cons x t => rw [h.byte_cons b x t hb]; simp [readByteB, hb]
+
+/-- **`ReadByte` is only ever called with something buffered.**  The reading side calls `ReadByte` in one
+    place — `readRune`'s fallback, right after `UnreadRune` succeeded, which it does only after a
+    `ReadRune` that returned a rune: the reader restored by that `UnreadRune` has a non-empty buffer (the
+    rune's bytes).  So the contract's silence about `ReadByte` on an empty buffer (the real one would go
+    on reading) costs nothing. -/
+theorem readByte_only_with_buffer (b b1 : BR) (h : unreadRuneB (readRuneB b).2 = some b1) : b1.rd.buf ≠ [] := by
+  cases hb : b.rd.fill.buf with
+  | nil => rw [readRuneB_nil b hb] at h; simp [unreadRuneB] at h
+  | cons b0 t =>
+    rw [readRuneB_cons b b0 t hb] at h
+    simp only [unreadRuneB, Option.map_some, Option.some.injEq] at h
+    subst h
+    simp [hb]
 
 -- non-vacuity of the clauses' hypotheses: a scalar encoding, an invalid start, a proper prefix
 example : IsScalar 0x20AC ∧ encodeRune 0x20AC = [0xE2, 0x82, 0xAC] ∧
